@@ -98,6 +98,7 @@ def units(tier, seed):
         for i in range(0, len(sigs), 25):
             us.append({'kind': 'eigh', 'N': N, 'sigs': [list(s) for s in sigs[i:i + 25]], 'tier': tier, 'seed': seed})
     us.append({'kind': 'eigh_generic', 'tier': tier, 'seed': seed})
+    us.append({'kind': 'eigh_close', 'tier': tier, 'seed': seed})
     us.append({'kind': 'eig', 'tier': tier, 'seed': seed})
     us.append({'kind': 'svd', 'tier': tier, 'seed': seed})
     us.append({'kind': 'patterns', 'tier': tier, 'seed': seed})
@@ -440,6 +441,42 @@ def run_eigh_generic(c, u):
             check_eigh(c, 'eigh(generic)', A, l, Q, {'fn': 'eigh_generic', 'N': N, 'D': D}, 1e4)
 
 
+def run_eigh_close(c, u):
+    """distinct eigenvalues that are CLOSE RELATIVE TO THEIR MAGNITUDE (far from the origin): they must still be treated as
+    distinct (gap >> the absolute threshold of the block detection)"""
+    from . import c11 as C11
+    tier = u['tier']
+    for spectrum in [(400.0, 1000.0, 1000.005, 1700.0), (-2100.0, -2099.99, 3.0, 50.0), (1000.0, 1000.02, 2000.0), (5.0e4, 5.0e4 + 0.25, 7.0e4)]:
+        N = len(spectrum)
+        Q = C11._orth(N, 1)
+        A0 = Q.dot(np.diag(spectrum)).dot(Q.T)
+        A0 = 0.5 * (A0 + A0.T)
+        for D in (1, 2, 3):
+            P = 2
+            A = np.zeros((D, P, N, N))
+            A[0] = A0
+            A[1:] = fills((N, N), D, P, N + D, sym=True) * 0.125
+            x = UTPM(A.copy())
+            c.out['evals'] += P
+            c.out['keys'] += ['eighclose|%s|%d|%d' % (spectrum, D, p) for p in range(P)]
+            case = {'fn': 'eigh_close', 'spectrum': list(spectrum), 'D': D}
+            try:
+                l, Qf = algopy.eigh(x)
+            except Exception as ex:
+                c.fail('C08|eigh|raises|close eigenvalues far from the origin', case, {'error': str(ex)[:160]})
+                continue
+            # residuals relative to the size of A; first-order eigenvalue coefficients against perturbation theory
+            if not check_eigh(c, 'eigh(close, large)', A, l, Qf, case, 1e7):
+                continue
+            if D >= 2:
+                w, V = np.linalg.eigh(A0)
+                for p in range(P):
+                    l1 = np.array([V[:, i].dot(A[1, p]).dot(V[:, i]) for i in range(N)])
+                    if not np.allclose(l.data[1, p], l1, atol=1e-6 * (1 + np.abs(l1).max())):
+                        c.fail('C08|eigh(close, large)|first-order eigenvalues', dict(case, direction=p), {'got': l.data[1, p].tolist(), 'expected': l1.tolist()})
+                        break
+
+
 def run_eig(c, u):
     for N in (2, 3):
         bases = []
@@ -620,7 +657,7 @@ def run_unit(u):
     if k == 'patterns':
         run_patterns(c, u)
         return c.out
-    {'qr': run_qr, 'cholesky': run_cholesky, 'lu': run_lu, 'eigh': run_eigh, 'eigh_generic': run_eigh_generic, 'eig': run_eig, 'svd': run_svd}[k](c, u)
+    {'qr': run_qr, 'cholesky': run_cholesky, 'lu': run_lu, 'eigh': run_eigh, 'eigh_generic': run_eigh_generic, 'eigh_close': run_eigh_close, 'eig': run_eig, 'svd': run_svd}[k](c, u)
     return c.out
 
 
